@@ -9,12 +9,18 @@ from collections import Counter
 from vlib import core, e2e
 from vlib.props.C08 import model_compare
 
-MODS = ['S4V.Props.C09', 'S4V.Props.FilterSpec']
+MODS = ['S4V.Props.C09', 'S4V.Props.FilterSpec', 'S4V.Props.JournalRenderSpec']
 LEVEL_NOTE = ("Proved on the model of JournalReader's iteration with the stop test, the dating source and the field cap regenerated from the source on every run: "
               "without a window every enumerated entry is printed once in journal order; the selection is always an order-preserving sublist; for journals whose receive "
               "times are non-decreasing it is exactly A <= t <= B (inclusive both ends: the exclusive end was a defect repaired by commit a1ebdbb3); the instant is "
               "__REALTIME_TIMESTAMP; the export text carries every enumerated field unchanged (<= 200 fields) and is decodable iff no value contains a newline "
-              "(counter-model proved: known finding F11). Tied to the code by running the real binary on shipped journals (plain and in containers) against "
+              "(counter-model proved: known finding F11). All ten renderings are modelled (JournalRenderSpec over Gen.JournalRender: mode dispatch and strftime patterns, "
+              "field caps, slot/fallback tables, separators and terminators regenerated from journalreader.rs): cat = the first stored MESSAGE + newline, an entry without MESSAGE is skipped "
+              "(C09_cat_is_message, C09_cat_without_message); export = three synthetic lines, then each of the first 200 items + newline, then a blank line (C09_export_all_fields, "
+              "C09_export_nothing_dropped); the short line for all 64 present/missing combinations of host / identifier / _COMM / _PID / SYSLOG_PID / MESSAGE (C09_short_fields); verbose is a "
+              "permutation of the stored pairs (C09_verbose_all_fields); every rendering ends with a newline, depends on its own entry only, and dates the entry by __REALTIME_TIMESTAMP "
+              "(C09_render_ends_with_newline, C09_render_depends_only_on_entry, C09_timestamp_is_realtime, C09_timestamp_denotes_instant). Proved false and reproduced: entries with more than "
+              "200 fields lose data (known finding F31), repeated keys are handled differently by short / cat / verbose. Tied to the code by running the real binary on shipped journals (plain and in containers) against "
               "`journalctl --file -o json` as an independent reader: entry count, order, per-entry field lines, cat text, and windows on/next to entry times.")
 ASSUME = ["libsystemd: after seek_head / seek_realtime_usec(A), sd_journal_next enumerates each entry at or after the seek point once, in journal order; sd_journal_enumerate_available_data yields each stored field once",
           "journalctl is the independent reader for the oracle"]
@@ -237,15 +243,65 @@ def oracle_patched(ctx):
                     'cat == MESSAGE text of the entries that store one, with and without -a at the first entry'}
 
 
+def oracle_many_fields(ctx):
+    """A journal written by the real systemd-journald with entries of ~200 and of 319 fields (corpus/jrender/synth.journal.xz; journald
+    stores up to 1024 fields per entry): every stored field must appear in the export rendering, and the short rendering must show the
+    MESSAGE. The renderings stop enumerating after 200 items (known finding F31)."""
+    import lzma
+    src = os.path.join(core.VERIF, 'corpus', 'jrender', 'synth.journal.xz')
+    failures, ev = [], 0
+    if not os.path.exists(src):
+        return {'evaluations': 0, 'distinct_nontrivial': 0, 'failures': [], 'samples': [], 'rule': 'synthetic journal missing'}
+    plain = os.path.join(ctx.work, 'synth.journal')
+    open(plain, 'wb').write(lzma.open(src).read())
+    ref = journalctl(plain)
+    rc, out, err, _ = e2e.s4(e2e.BASE_ARGS + ['--journal-output', 'export', plain], timeout=600)
+    ev += 1
+    ents = parse_export(out)
+    desc = {'journal': 'corpus/jrender/synth.journal.xz', 'entries': len(ref)}
+    if not ref:
+        failures.append({'signature': 'journal:journalctl-unavailable', 'detail': 'synth'})
+    elif rc != 0 or len(ents) != len(ref):
+        failures.append({'signature': 'journal:entry-count', 'detail': f'rc={rc} s4 printed {len(ents)} entries, journalctl {len(ref)}', 'case': desc})
+    else:
+        for e, r in zip(ents, ref):
+            exp = Counter()
+            nitems = 0
+            for k, v in r.items():
+                for b in val_bytes(v):
+                    if not k.startswith('__'):
+                        nitems += 1
+                    for ln in (k.encode() + b'=' + b).split(b'\n'):
+                        exp[ln] += 1
+            got = Counter(ln for ln in e)
+            got[b''] = 0
+            exp[b''] = 0
+            ev += 1
+            if +got != +exp:
+                miss = list((exp - got).items())
+                extra = list((got - exp).items())
+                if nitems > 200 and not extra:
+                    failures.append({'signature': 'journal:fields-beyond-200-dropped', 'case': {**desc, 'stored_items': nitems},
+                                     'detail': f'entry {r.get("__CURSOR")} stores {nitems} items; {sum(c for _, c in miss)} field line(s) missing from the export rendering, e.g. {miss[:2]}'})
+                else:
+                    failures.append({'signature': 'journal:export-fields-differ', 'case': {**desc, 'stored_items': nitems},
+                                     'detail': f'entry {r.get("__CURSOR")}: missing {miss[:3]} extra {extra[:3]}'})
+    return {'evaluations': ev, 'distinct_nontrivial': ev, 'failures': failures, 'samples': [],
+            'rule': 'a journald-written journal with entries of 5..319 fields (repeated keys, binary / empty / multi-line / 128 KB values): per entry the export field lines == journalctl -o json'}
+
+
 def check(ctx):
-    ok_gen = core.step_gen(ctx, ['Journal', 'Filter'])
+    ok_gen = core.step_gen(ctx, ['Journal', 'Filter', 'JournalRender'])
     prove = core.step_prove(ctx, MODS) if ok_gen else {'module': ' '.join(MODS), 'obligations': 0, 'discharged': 0}
     core.step_drv(ctx) if (ok_gen or ctx.search_mode) else False
     ok_impl = core.step_build_impl(ctx)
     orc, corr = (None, [])
     if ok_impl:
         orc, corr = oracle_and_corr(ctx)
-        orc = core.merge_oracles([orc, oracle_patched(ctx)])
+        orc = core.merge_oracles([orc, oracle_patched(ctx), oracle_many_fields(ctx)])
+        # every rendering of every entry: the real JournalReader vs Model.JournalRender (values from journalctl -o export, order from the real enumeration)
+        os.environ.setdefault('S4_REPO', core.REPO)
+        corr.append(core.correspond(ctx, 'jrender', ctx.q(2000, 60000)))
     return core.decide(ctx, prove, corr, orc, LEVEL_NOTE, ASSUME)
 
 
